@@ -186,6 +186,7 @@ def wireOf (attack : String) (params : List Nat) (other : Nat) (cap : Outcome) (
   | "mitm-cert-truncate" => s2c fun x => if x.ders.length < 2 then x else { x with ders := x.ders.take 1 }
   | "mitm-cert-empty" => s2c fun x => if x.ders.length < 2 then x else { x with ders := [] }
   | "mitm-cert-append" => s2c fun x => if x.ders.length < 2 then x else { x with ders := x.ders ++ [1] }
+  | "mitm-cert-append-foreign" => s2c fun x => if x.ders.length < 2 then x else { x with ders := x.ders ++ [2] }
   | "mitm-ske-flip" => s2c fun x => { x with ske := x.ske.map (· ++ [1]) }
   | "mitm-ske-replay" => s2c fun x => { x with ske := x.ske.map fun s => capSke.getD s }
   | "mitm-ske-drop" => s2c fun x => { x with ske := none }
